@@ -63,6 +63,49 @@ def check(ctx: Ctx) -> None:
     r3(ctx)
     r4(ctx)
     r5(ctx)
+    row_sources_sanctioned(ctx)
+
+
+ROW_SOURCE_OWNERS: Dict[str, str] = {
+    "datashard.transaction.Table._read_datafile_table": "the verifying reader (R3/R4: checksum compared before rows are returned)",
+    "datashard.transaction.Table._iter_file_batches": "the verifying batch reader (R3/R4)",
+    "datashard.transaction.Transaction._validate_file_schema": "reads the Parquet footer schema of a file being appended (no rows)",
+    "datashard.data_operations.DataFileReader.open": "the low-level reader object itself",
+    "datashard.data_operations.DataFileManager.read_data_file": "low-level utility (no caller inside the package)",
+    "datashard.data_operations.DataFileManager.read_pandas_file": "low-level utility (no caller inside the package)",
+}
+
+
+def row_sources_sanctioned(ctx: Ctx, rid: str = "C14.R6") -> None:
+    ctx.rule(rid, "who may turn a data file into rows: every Parquet read (pq.read_table / pq.ParquetFile / DataFileReader / the "
+             "low-level read_data_file utilities) lies in the two verifying readers of Table or in the reasoned list - a read API "
+             "added elsewhere has neither the checksum comparison nor the raise-on-missing behaviour", 8)
+    low = {f.qname for f in ctx.prog.functions.values() if f.module.short == "data_operations" and not isinstance(f.node, ast.Lambda)
+           and any(n.callee and n.callee.kind == "ctor" and n.callee.cls and n.callee.cls.name == "DataFileReader" for n in ctx.cfg(f).calls())}
+    for f in sorted(ctx.prog.functions.values(), key=lambda x: x.qname):
+        if isinstance(f.node, ast.Lambda):
+            continue
+        g = ctx.cfg(f)
+        for n in g.calls():
+            if n.id not in g.reachable() or n.callee is None:
+                continue
+            c = n.callee
+            what = None
+            if c.kind == "prim" and c.name in ("pyarrow.parquet.read_table", "pyarrow.parquet.ParquetFile", "pyarrow.parquet.ParquetDataset",
+                                               "pyarrow.dataset.dataset", "pyarrow.parquet.read_pandas"):
+                what = c.name
+            elif c.kind == "ctor" and c.cls is not None and c.cls.name == "DataFileReader":
+                what = "DataFileReader"
+            elif f.module.short != "data_operations" and any(t.qname in low for t in ctx.eff.callees(f, n)):
+                what = "low-level " + "/".join(sorted(t.name for t in ctx.eff.callees(f, n) if t.qname in low))
+            if what is None:
+                continue
+            owners = owner_tops(ctx, f)
+            reasons = [ROW_SOURCE_OWNERS.get(ctx.prog.anchor(o)) for o in owners]
+            ok = bool(owners) and all(r is not None for r in reasons)
+            ctx.ob(rid, f, f"{what} site", n, ok, (f"sanctioned: {reasons[0]}" if ok else
+                   "rows are produced outside the verifying readers: altered bytes are returned as rows, and whatever this function "
+                   "does about a missing file is not the readers' raise"), text=what)
 
 
 def read_path_functions(ctx: Ctx, roots: Optional[List[FunctionInfo]] = None, modules: Tuple[str, ...] = READ_MODULES) -> List[FunctionInfo]:
